@@ -25,7 +25,6 @@ theorem integral_rexp_neg_half_sum_add (c : n → ℝ) :
   rw [e2, e3, e4, ← Complex.ofReal_cpow (by positivity), ← Complex.ofReal_mul] at h
   exact_mod_cast h
 
-/-- linear change of variables on `n → ℝ` -/
 theorem integral_comp_mulVec (B : Matrix n n ℝ) (hB : B.det ≠ 0) (g : (n → ℝ) → ℝ) (hg : Continuous g) :
     ∫ x : n → ℝ, g (B *ᵥ x) = |B.det|⁻¹ * ∫ y : n → ℝ, g y := by
   have hmap := Real.map_matrix_volume_pi_eq_smul_volume_pi hB
@@ -36,7 +35,6 @@ theorem integral_comp_mulVec (B : Matrix n n ℝ) (hB : B.det ≠ 0) (g : (n →
   rw [this, hmap, integral_smul_measure, abs_inv]
   simp [ENNReal.toReal_ofReal (inv_nonneg.2 (abs_nonneg _))]
 
-/-- The multivariate Gaussian integral for `Λ = Bᵀ B`, `B` invertible. -/
 theorem gaussian_integral_of_factor (B : Matrix n n ℝ) (hB : B.det ≠ 0) (ν : n → ℝ) :
     ∫ x : n → ℝ, rexp (-(1/2) * (x ⬝ᵥ (Bᵀ * B) *ᵥ x) + ν ⬝ᵥ x)
       = |B.det|⁻¹ * ((2 * π) ^ ((Fintype.card n : ℝ) / 2)
@@ -60,3 +58,24 @@ theorem gaussian_integral_of_factor (B : Matrix n n ℝ) (hB : B.det ≠ 0) (ν 
     rw [Matrix.mul_inv_rev, transpose_nonsing_inv]
   rw [this, ← mulVec_mulVec, dotProduct_mulVec, ← mulVec_transpose, ← hc]
   simp [dotProduct, sq]
+
+/-- **M1**: multivariate Gaussian integral for a positive definite precision matrix, log form. -/
+theorem gaussian_integral_posDef (Λ : Matrix n n ℝ) (hΛ : Λ.PosDef) (ν : n → ℝ) :
+    ∫ x : n → ℝ, rexp (-(1/2) * (x ⬝ᵥ Λ *ᵥ x) + ν ⬝ᵥ x)
+      = rexp ((1/2) * (ν ⬝ᵥ Λ⁻¹ *ᵥ ν + (Fintype.card n : ℝ) * Real.log (2 * π) - Real.log Λ.det)) := by
+  obtain ⟨B, hB⟩ := CStarAlgebra.nonneg_iff_eq_star_mul_self.mp hΛ.posSemidef.nonneg
+  have hB' : Λ = Bᵀ * B := by rw [hB]; rfl
+  have hdetΛ : 0 < Λ.det := hΛ.det_pos
+  have hdet : Λ.det = B.det ^ 2 := by rw [hB', det_mul, det_transpose]; ring
+  have hBdet : B.det ≠ 0 := by
+    intro h; rw [hdet, h] at hdetΛ; simp at hdetΛ
+  subst hB'
+  rw [gaussian_integral_of_factor B hBdet ν]
+  have h2π : (0:ℝ) < 2 * π := by positivity
+  have habs : (0:ℝ) < |B.det| := abs_pos.2 hBdet
+  have hinv : |B.det|⁻¹ = rexp (-(1/2) * Real.log ((Bᵀ * B).det)) := by
+    rw [hdet, ← sq_abs, Real.log_pow]
+    have : -(1/2 : ℝ) * (((2:ℕ):ℝ) * Real.log |B.det|) = -Real.log |B.det| := by push_cast; ring
+    rw [this, Real.exp_neg, Real.exp_log habs]
+  rw [hinv, Real.rpow_def_of_pos h2π, ← Real.exp_add, ← Real.exp_add]
+  congr 1; ring
